@@ -551,7 +551,7 @@ static void actor_body(int idx) {
         ReadCtx c; W->ctx[photon::CURRENT] = &c;
         int r = f->fadvise(0, W->fsize[0], POSIX_FADV_WILLNEED);
         W->ctx.erase(photon::CURRENT);
-        if (r != 0 && !c.fault) pmc_violation("prefetch-failed-without-source-fault", "%s: fadvise(WILLNEED) on %s returned %d although no source read issued by it failed or was short", who, W->fname[0].c_str(), r);
+        // the result is only recorded: a prefetch may legitimately fail without a source fault (ENOSPC when the pool is full)
         char b[32]; snprintf(b, sizeof b, "%s=prefetch:%d/s%d ", who, r, c.nsrc); W->log += b;
         delete f;
     } else if (a.action == 3) {
@@ -605,25 +605,72 @@ static void quiet_full_read(const char* who, bool twice) {
 //             3 media open/stat/fstat/unlink/truncate/statvfs/opendir yield, f source pread may be short or fail
 struct Suite { const char* name; std::vector<const char*> variants; };
 static const Suite SUITES[] = {
+    // ---- quick tier (environment deviations <= 2)
     {"conc-q", {
         "rr:cap1:fie:ru4:s8193:a1:y012f",
         "rr:big:rng:ru8:s4097:a1:y012f",
         "rew1:cap1:fie:ru4:s8193:a1:y012f",
         "rew1:cap1:rng:ru8:s8193:a1:y012f",
+        "rew1:quota:fie:ru4:s8193:a1:y02f",
         "rec1:cap0:fie:ru4:s4097:a1:y012f",
         "rew2:cap1:fie:ru4:s8193:a1:y02f",
+        "rec2:disk:rng:ru4:s4097:a1:y02f",
         "rew3:cap1:fie:ru4:s8193:a1:y012f",
+        "rew4:cap1:fie:ru4:s8193:a1:y02f",
+        "rea1:cap1:fie:ru4:s8193:a1:y023f",
     }},
     {"seq-q", {
         "sq:cap1:fie:ru4:s8193:a1:yf",
         "sq:big:rng:ru8:s1,4095,4096,4097:a1:yf",
     }},
-    {"t-quota", { "rr:quota:fie:ru4:s8193:a1:y012f", "rew1:quota:fie:ru4:s8193:a1:y012f", "rew3:quota:fie:ru4:s8193:a1:y012f", "sq:quota:fie:ru4:s8193:a1:yf" }},
-    {"t-disk", { "rec2:disk:rng:ru4:s4097:a1:y02f", "rew2:disk:fie:ru4:s4097:a1:y02f", "rew3:disk:fie:ru4:s8193:a1:y02f" }},
-    {"t-y3", { "rr:cap1:fie:ru4:s8193:a1:y0123f", "rew1:cap1:fie:ru4:s8193:a1:y0123f", "rec2:cap0:fie:ru4:s4097:a1:y23" }},
-    {"t-a2", { "rr:cap1:fie:ru8:s12288:a2:y02f", "rew1:cap1:rng:ru4:s12288:a2:y02f" }},
-    {"t-seq", { "sq:cap1:fie:ru8:s8193,12288:a2:yf", "sq:cap1:rng:ru4:s8193:a2:y3f", "sq:cap0:fie:ru4:s4097:a1:yf" }},
-    {"x-punch-eof", { "sqx:big:rng:ru4:s4095:a1:y-" }},
+    // ---- thorough tier (environment deviations <= 3)
+    {"readers-t", {
+        "rr:cap1:fie:ru4:s8193:a2:y0123f",
+        "rr:cap1:rng:ru8:s12288:a2:y012f",
+        "rr:big:fie:ru8:s1,4095,4096,4097:a2:y012f",
+        "rr:big:rng:ru4:s8192:a1:y012f",
+        "rr:cap0:fie:ru4:s8193:a1:y012f",
+        "rr:quota:rng:ru4:s8193:a1:y012f",
+    }},
+    {"evict-t", {
+        "rew1:cap1:fie:ru4:s8193:a2:y0123f",
+        "rew1:cap1:rng:ru8:s8193:a2:y012f",
+        "rec1:cap1:fie:ru8:s12288:a1:y012f",
+        "rew1:quota:fie:ru4:s8193:a1:y0123f",
+        "rec1:cap0:fie:ru4:s4097:a1:y012f",
+        "rew1:cap0:rng:ru4:s8193:a1:y012f",
+        "rew2:cap1:fie:ru4:s8193:a1:y0123f",
+        "rew2:cap1:rng:ru8:s4097:a1:y02f",
+        "rec2:disk:rng:ru4:s4097:a1:y023f",
+        "rew2:disk:fie:ru4:s4097:a1:y02f",
+        "rec2:cap0:fie:ru4:s4097:a1:y02f",
+        "rew2:quota:fie:ru4:s4097:a1:y02f",
+        "rew3:cap1:fie:ru4:s8193:a2:y0123f",
+        "rew3:disk:rng:ru4:s8193:a1:y012f",
+        "rew3:quota:fie:ru4:s8193:a1:y012f",
+        "rew4:cap1:fie:ru4:s8193:a2:y012f",
+        "rec4:big:rng:ru8:s8193:a1:y012f",
+        "rec4:cap0:fie:ru4:s4097:a1:y02f",
+    }},
+    {"reuse-t", {
+        "rer1:cap1:fie:ru4:s8193:a1:y0123f",
+        "rea1:cap1:fie:ru4:s8193:a1:y023f",
+        "rea1:cap1:rng:ru8:s8193:a1:y023f",
+        "rea2:cap1:rng:ru4:s8193:a1:y23f",
+        "rea3:cap1:fie:ru4:s8193:a1:y023f",
+        "rer2:disk:fie:ru4:s4097:a1:y02f",
+    }},
+    {"seq-t", {
+        "sq:cap1:fie:ru4:s8193:a2:yf",
+        "sq:cap1:rng:ru8:s8193,12288:a2:yf",
+        "sq:big:rng:ru8:s1,4095,4096,4097:a2:yf",
+        "sq:big:fie:ru4:s1,4095,4096,4097,8192:a1:yf",
+        "sq:cap1:rng:ru4:s8193:a1:y3f",
+        "sq:cap0:fie:ru4:s4097:a1:yf",
+        "sq:quota:fie:ru4:s8193:a1:yf",
+    }},
+    // ---- the finding: "evict from 4096 to the end" on a file that ends before 4096 (both tiers)
+    {"x-punch-eof", { "sqx:big:rng:ru4:s4095:a1:y-", "sqx:big:fie:ru4:s4096:a1:y-" }},
 };
 
 void pmc_run(const char* config) {
@@ -632,7 +679,8 @@ void pmc_run(const char* config) {
     {
         const Suite* su = nullptr;
         for (auto& x : SUITES) if (!strcmp(x.name, config)) su = &x;
-        const char* var = su ? su->variants[pmc_choose((int)su->variants.size(), PMC_PROG, 0, "variant")] : config;
+        if (!su) pmc_broken("unknown suite %s", config);
+        const char* var = su->variants[pmc_choose((int)su->variants.size(), PMC_PROG, 0, "variant")];
         w.log = var; w.log += " ";
         char scn[8], pool[8], map[8], sizes[64], ys[8]; int ru, al;
         if (sscanf(var, "%7[^:]:%7[^:]:%7[^:]:ru%d:s%63[^:]:a%d:y%7s", scn, pool, map, &ru, sizes, &al, ys) != 7) pmc_broken("bad variant %s", var);
@@ -709,23 +757,14 @@ void pmc_run(const char* config) {
 }
 
 static const PmcConfig CFG[] = {
-    {"rr:cap1:fie:ru4:s8193:a1:y012f", 3, {0,0}, {0,0}, {2,3}, {0,0}, ""},
-    {"rr:cap1:fie:ru4:s8193:a1:y02f", 3, {0,0}, {0,0}, {2,3}, {0,0}, ""},
-    {"rr:big:rng:ru8:s4097:a1:y012f", 3, {0,0}, {0,0}, {2,3}, {0,0}, ""},
-    {"rew1:cap1:fie:ru4:s8193:a1:y012f", 3, {0,0}, {0,0}, {2,3}, {0,0}, ""},
-    {"rew1:cap1:fie:ru4:s8193:a1:y02f", 3, {0,0}, {0,0}, {2,3}, {0,0}, ""},
-    {"rec1:cap0:fie:ru4:s4097:a1:y012f", 3, {0,0}, {0,0}, {2,3}, {0,0}, ""},
-    {"rew2:cap1:fie:ru4:s8193:a1:y02f", 3, {0,0}, {0,0}, {2,3}, {0,0}, ""},
-    {"rew3:cap1:fie:ru4:s8193:a1:y012f", 3, {0,0}, {0,0}, {2,3}, {0,0}, ""},
-    {"rew4:cap1:fie:ru4:s8193:a1:y02f", 3, {0,0}, {0,0}, {2,3}, {0,0}, ""},
-    {"rec4:big:rng:ru8:s8193:a1:y02f", 3, {0,0}, {0,0}, {2,3}, {0,0}, ""},
-    {"rer1:cap1:fie:ru4:s8193:a1:y02f", 3, {0,0}, {0,0}, {2,3}, {0,0}, ""},
-    {"rea1:cap1:fie:ru4:s8193:a1:y023f", 3, {0,0}, {0,0}, {2,3}, {0,0}, ""},
-    {"rea2:cap1:rng:ru4:s8193:a1:y23f", 3, {0,0}, {0,0}, {2,3}, {0,0}, ""},
-    {"sq:cap1:fie:ru4:s8193:a1:yf", 3, {0,0}, {0,0}, {2,3}, {0,0}, ""},
-    {"sq:big:rng:ru8:s1,4095,4096,4097:a1:yf", 3, {0,0}, {0,0}, {2,3}, {0,0}, ""},
-    {"rr:cap1:fie:ru8:s12288:a2:y02f", 3, {0,0}, {0,0}, {2,3}, {0,0}, ""},
-    {"rr:cap1:fie:ru4:s8193:a1:y0123f", 3, {0,0}, {0,0}, {2,3}, {0,0}, ""},
+    // suite       tiers  sched  time   env    total
+    {"conc-q",       1, {0,0}, {0,0}, {2,2}, {0,0}, "two readers / reader-evictor-reader on cold, warm and reused caches; fiemap and range-map; capacity, always-full, disk-floor and quota pools"},
+    {"seq-q",        1, {0,0}, {0,0}, {2,2}, {0,0}, "sequential: read, punch (no read in flight), reuse by a new pool (sync/async scan), read; file sizes 1..8193"},
+    {"readers-t",    2, {0,0}, {0,0}, {3,3}, {0,0}, "two concurrent readers, full alphabet"},
+    {"evict-t",      2, {0,0}, {0,0}, {3,3}, {0,0}, "reader, evictor (evict / fill / 300 s pass / prefetch), reader"},
+    {"reuse-t",      2, {0,0}, {0,0}, {3,3}, {0,0}, "the same actors on a new pool built on the old pool's media (sync and async scan)"},
+    {"seq-t",        2, {0,0}, {0,0}, {3,3}, {0,0}, "sequential: read, punch, reuse, read; full alphabet"},
+    {"x-punch-eof",  3, {0,0}, {0,0}, {0,0}, {0,0}, "punch from 4096 to the end of a file that ends at or before 4096, then reuse / keep, then read"},
 };
 const PmcConfig* pmc_configs(int* n) { *n = sizeof CFG / sizeof CFG[0]; return CFG; }
 const char* pmc_property(void) { return "C17"; }
